@@ -74,7 +74,7 @@ def main(prop, path):
         if kind == "c17-fit":
             from harness import check_c17, checklib
             v = checklib.Verdict(prop)
-            check_c17.fit_cases(check_c17.load_circus(check_c17.REPO if hasattr(check_c17, "REPO") else "/repo"), 1, v)
+            check_c17.fit_cases(check_c17.load_circus(__import__("os").environ.get("VERIF_REPO", "/repo")), 1, v)
             return _generic(v.violations[0][0] if v.violations else None, prop, path)
         if kind.startswith("c17") or (prop == "C17" and kind in ("redirector-replay", "live", "live-f1")):
             from harness import check_c17
